@@ -1,4 +1,5 @@
 import PegVerif.Proofs.RefineLoop
+import PegVerif.Proofs.RefineSwitch
 import PegVerif.Proofs.EventLemmas
 /-
   Refinement theorem R: rule calls, and the induction over the derivation that puts all cases
@@ -133,11 +134,13 @@ theorem callee_exec (hW : World P cfg env G inp) {n : String} {cr : Code} {r : R
         simp [stepLocal, hfm, hmatch]
       exact ⟨s, Exec.ret h0 hstep, hpos, rfl, rfl, hlen, by simp [hfold], hm⟩
   | none =>
-    have hpre : Pre env inp cr s p := ⟨huniq, hused, hpos, hple, hlen, hm⟩
+    have hpre : Pre env inp cr s p :=
+      ⟨huniq, hcr ▸ ruleFunc_suniq env r b kr stb, hused, hpos, hple, hlen, hm⟩
     have hstart : Steps P cfg inp cr 0 s Frame.empty (0 + 1 + 1) s (Frame.empty.set kr (s.pos, s.ti)) :=
       (Steps.next (s' := s) (f' := Frame.empty) h0 (by simp [stepLocal, hfm])).trans
         (Steps.next (s' := s) (f' := Frame.empty.set kr (s.pos, s.ti)) h1 (by simp [stepLocal]))
-    have h' := ih kr stb cr (0 + 1 + 1) s (Frame.empty.set kr (s.pos, s.ti)) hcb hpre
+    have h' := ih kr false false stb cr (0 + 1 + 1) s (Frame.empty.set kr (s.pos, s.ti)) hcb hpre
+      (Lead_false _ _ _ _)
     -- validity of the entry that `memoize` stores, under the final `maxToken`
     have hentry : ∀ (mt : Token) (matched : Bool) (part : List Token), mt = evs.foldl updTok s.maxTok →
         (match res with
@@ -230,12 +233,12 @@ theorem callee_exec (hW : World P cfg env G inp) {n : String} {cr : Code} {r : R
         exact Exec.ret h7 (by simp [stepLocal])
 
 theorem good_name (hW : World P cfg env G inp) {n b p res evs} (hb : G.body n = some b)
-    (hfine : (Expr.name n).fine P) (hev : Eval G cfg.rho inp b p res evs)
+    (hfine : (Expr.name n).fineS P) (hev : Eval G cfg.rho inp b p res evs)
     (ih : @Good (memoInv P G cfg.rho inp) P cfg env inp b p res evs) :
     @Good (memoInv P G cfg.rho inp) P cfg env inp (.name n) p res evs := by
   letI : MInv := memoInv P G cfg.rho inp
-  intro ko st code pc s f hc hp
-  simp only [Expr.fine] at hfine
+  intro ko pd pmk st code pc s f hc hp _
+  simp only [Expr.fineS] at hfine
   obtain ⟨cr, hfind⟩ := Option.isSome_iff_exists.mp hfine
   obtain ⟨r, b', kr, stb, hb', hcr, hkr, huniq, hused, _, hid, e, hshape⟩ := hW.rules n cr hfind
   rw [hb] at hb'; cases hb'
@@ -265,19 +268,19 @@ theorem good_name (hW : World P cfg env G inp) {n b p res evs} (hb : G.body n = 
 /-- The three statements proved together by induction on the derivation. -/
 def Motive [MInv] (P : Program) (cfg : Cfg) (env : CEnv) (inp : List Sym) (e : Expr) (p : Nat) (res : Res)
     (evs : List Token) : Prop :=
-  e.fine P →
+  e.fineS P →
     Good P cfg env inp e p res evs ∧
     (∀ es, e = .alt es → GoodAlt P cfg env inp es p res evs) ∧
     (∀ e', e = .star e' → GoodLoop P cfg env inp e' p res evs)
 
 theorem Motive.leaf [MInv] {e : Expr} {p res evs} (hna : ∀ es, e ≠ .alt es) (hns : ∀ e', e ≠ .star e')
-    (h : e.fine P → Good P cfg env inp e p res evs) : Motive P cfg env inp e p res evs :=
+    (h : e.fineS P → Good P cfg env inp e p res evs) : Motive P cfg env inp e p res evs :=
   fun hf => ⟨h hf, fun es he => absurd he (hna es), fun e' he => absurd he (hns e')⟩
 
 theorem good_inl [MInv] {n e p res evs} (ih : Good P cfg env inp e p res evs) :
     Good P cfg env inp (.inl n e) p res evs := by
-  intro ko st code pc s f hc hp
-  have := ih ko st code pc s f (by simpa [compile] using hc) hp
+  intro ko pd pmk st code pc s f hc hp hlead
+  have := ih ko pd pmk st code pc s f (by simpa [compile] using hc) hp (by simpa only [Lead] using hlead)
   simpa [compile] using this
 
 /-- **R**: for every derivation of the PEG semantics, the emitted code of the expression does the
@@ -292,25 +295,25 @@ theorem R_all (hW : World P cfg env G inp) {e p res evs} (h : Eval G cfg.rho inp
   | chr_ok h => exact Motive.leaf (by intro _ h; cases h) (by intro _ h; cases h) (fun _ => good_chr_ok h)
   | chr_fail h =>
     exact Motive.leaf (by intro _ h; cases h) (by intro _ h; cases h)
-      (fun hf => good_chr_fail (by simpa [Expr.fine] using hf) h)
+      (fun hf => good_chr_fail (by simpa [Expr.fineS] using hf) h)
   | rng_ok h hl hh => exact Motive.leaf (by intro _ h; cases h) (by intro _ h; cases h) (fun _ => good_rng_ok h hl hh)
   | rng_fail h =>
     exact Motive.leaf (by intro _ h; cases h) (by intro _ h; cases h)
-      (fun hf => good_rng_fail (by simpa [Expr.fine] using hf) h)
-  | str_ok _ => exact fun hf => by simp [Expr.fine] at hf
-  | str_fail _ => exact fun hf => by simp [Expr.fine] at hf
+      (fun hf => good_rng_fail (by simpa [Expr.fineS] using hf) h)
+  | str_ok _ => exact fun hf => by simp [Expr.fineS] at hf
+  | str_fail _ => exact fun hf => by simp [Expr.fineS] at hf
   | @name n b p res evs hb hev ih =>
     refine Motive.leaf (by intro _ h; cases h) (by intro _ h; cases h) (fun hf => ?_)
-    have hbf : b.fine P := by
+    have hbf : b.fineS P := by
       have hf' := hf
-      simp only [Expr.fine] at hf'
+      simp only [Expr.fineS] at hf'
       obtain ⟨cr, hfind⟩ := Option.isSome_iff_exists.mp hf'
       obtain ⟨_, b', _, _, hb', _, _, _, _, hfb, _⟩ := hW.rules n cr hfind
       rw [hb] at hb'; cases hb'; exact hfb
     exact good_name hW hb hf hev (ih hbf).1
   | inl _ ih =>
     exact Motive.leaf (by intro _ h; cases h) (by intro _ h; cases h)
-      (fun hf => good_inl (ih (by simpa [Expr.fine] using hf)).1)
+      (fun hf => good_inl (ih (by simpa [Expr.fineS] using hf)).1)
   | pred_ok h => exact Motive.leaf (by intro _ h; cases h) (by intro _ h; cases h) (fun _ => good_pred_ok h)
   | pred_fail h => exact Motive.leaf (by intro _ h; cases h) (by intro _ h; cases h) (fun _ => good_pred_fail h)
   | stmt => exact Motive.leaf (by intro _ h; cases h) (by intro _ h; cases h) (fun _ => good_stmt)
@@ -319,87 +322,94 @@ theorem R_all (hW : World P cfg env G inp) {e p res evs} (h : Eval G cfg.rho inp
   | seq_nil => exact Motive.leaf (by intro _ h; cases h) (by intro _ h; cases h) (fun _ => good_seq_nil)
   | seq_fail _ ih =>
     exact Motive.leaf (by intro _ h; cases h) (by intro _ h; cases h)
-      (fun hf => good_seq_fail (ih (by simp [Expr.fine, fineL] at hf; exact hf.1)).1)
+      (fun hf => good_seq_fail (ih (by simp [Expr.fineS, fineSL] at hf; exact hf.1)).1)
   | seq_ok_fail h1 h2 ih1 ih2 =>
     refine Motive.leaf (by intro _ h; cases h) (by intro _ h; cases h) (fun hf => ?_)
-    simp only [Expr.fine, fineL] at hf
-    exact good_seq_ok_fail h1 h2 (ih1 hf.1).1 (ih2 (by simpa [Expr.fine] using hf.2)).1
+    simp only [Expr.fineS, fineSL] at hf
+    exact good_seq_ok_fail h1 h2 (ih1 hf.1).1 (ih2 (by simpa [Expr.fineS] using hf.2)).1
   | seq_ok h1 h2 ih1 ih2 =>
     refine Motive.leaf (by intro _ h; cases h) (by intro _ h; cases h) (fun hf => ?_)
-    simp only [Expr.fine, fineL] at hf
-    exact good_seq_ok h1 h2 (ih1 hf.1).1 (ih2 (by simpa [Expr.fine] using hf.2)).1
+    simp only [Expr.fineS, fineSL] at hf
+    exact good_seq_ok h1 h2 (ih1 hf.1).1 (ih2 (by simpa [Expr.fineS] using hf.2)).1
   | alt_last _ ih =>
     intro hf
-    have g := (ih (by simp [Expr.fine, fineL] at hf; exact hf)).1
+    have g := (ih (by simp [Expr.fineS, fineSL] at hf; exact hf)).1
     exact ⟨good_alt_of_goodAlt (goodAlt_last g), fun es h => by cases h; exact goodAlt_last g,
       fun _ h => by cases h⟩
   | alt_ok _ ih =>
     intro hf
-    have g := (ih (by simp [Expr.fine, fineL] at hf; exact hf.1)).1
+    have g := (ih (by simp [Expr.fineS, fineSL] at hf; exact hf.1)).1
     exact ⟨good_alt_of_goodAlt (goodAlt_ok g), fun es h => by cases h; exact goodAlt_ok g,
       fun _ h => by cases h⟩
   | alt_next _ _ ih1 ih2 =>
     intro hf
-    simp only [Expr.fine, fineL] at hf
+    simp only [Expr.fineS, fineSL] at hf
     have g1 := (ih1 hf.1).1
-    have g2 := (ih2 (by simpa [Expr.fine, fineL] using hf.2)).2.1 _ rfl
+    have g2 := (ih2 (by simpa [Expr.fineS, fineSL] using hf.2)).2.1 _ rfl
     exact ⟨good_alt_of_goodAlt (goodAlt_next g1 g2), fun es h => by cases h; exact goodAlt_next g1 g2,
       fun _ h => by cases h⟩
-  | ualt _ _ _ => exact fun hf => by simp [Expr.fine] at hf
+  | @ualt ks es p e res evs hidx _ ih =>
+    refine Motive.leaf (by intro _ h; cases h) (by intro _ h; cases h) (fun hf => ?_)
+    simp only [Expr.fineS] at hf
+    exact good_ualt hidx hf.2.2 (ih (fineSL_mem hf.2.1 e (List.mem_of_getElem? hidx))).1
   | peekFor_ok _ ih =>
     exact Motive.leaf (by intro _ h; cases h) (by intro _ h; cases h)
-      (fun hf => good_peekFor_ok (ih (by simpa [Expr.fine] using hf)).1)
+      (fun hf => good_peekFor_ok (ih (by simpa [Expr.fineS] using hf)).1)
   | peekFor_fail _ ih =>
     exact Motive.leaf (by intro _ h; cases h) (by intro _ h; cases h)
-      (fun hf => good_peekFor_fail (ih (by simpa [Expr.fine] using hf)).1)
+      (fun hf => good_peekFor_fail (ih (by simpa [Expr.fineS] using hf)).1)
   | peekNot_ok _ ih =>
     exact Motive.leaf (by intro _ h; cases h) (by intro _ h; cases h)
-      (fun hf => good_peekNot_ok (ih (by simpa [Expr.fine] using hf)).1)
+      (fun hf => good_peekNot_ok (ih (by simpa [Expr.fineS] using hf)).1)
   | peekNot_fail _ ih =>
     exact Motive.leaf (by intro _ h; cases h) (by intro _ h; cases h)
-      (fun hf => good_peekNot_fail (ih (by simpa [Expr.fine] using hf)).1)
+      (fun hf => good_peekNot_fail (ih (by simpa [Expr.fineS] using hf)).1)
   | query_ok _ ih =>
     exact Motive.leaf (by intro _ h; cases h) (by intro _ h; cases h)
-      (fun hf => good_query_ok (ih (by simpa [Expr.fine] using hf)).1)
+      (fun hf => good_query_ok (ih (by simpa [Expr.fineS] using hf)).1)
   | query_none _ ih =>
     exact Motive.leaf (by intro _ h; cases h) (by intro _ h; cases h)
-      (fun hf => good_query_none (ih (by simpa [Expr.fine] using hf)).1)
+      (fun hf => good_query_none (ih (by simpa [Expr.fineS] using hf)).1)
   | star_stop _ ih =>
     intro hf
-    have g := goodLoop_stop (ih (by simpa [Expr.fine] using hf)).1
+    have g := goodLoop_stop (ih (by simpa [Expr.fineS] using hf)).1
     exact ⟨good_star_of_loop g, (fun _ h => by cases h), (fun _ h => by cases h; exact g)⟩
   | star_step h1 _ ih1 ih2 =>
     intro hf
-    have g := goodLoop_step h1 (ih1 (by simpa [Expr.fine] using hf)).1 ((ih2 hf).2.2 _ rfl)
+    have g := goodLoop_step h1 (ih1 (by simpa [Expr.fineS] using hf)).1 ((ih2 hf).2.2 _ rfl)
     exact ⟨good_star_of_loop g, (fun _ h => by cases h), (fun _ h => by cases h; exact g)⟩
   | plus_fail _ ih =>
     exact Motive.leaf (by intro _ h; cases h) (by intro _ h; cases h)
-      (fun hf => good_plus_fail (ih (by simpa [Expr.fine] using hf)).1)
+      (fun hf => good_plus_fail (ih (by simpa [Expr.fineS] using hf)).1)
   | @plus_ok e p p1 f1 evs1 p2 f2 evs2 h1 _ ih1 ih2 =>
     refine Motive.leaf (by intro _ h; cases h) (by intro _ h; cases h) (fun hf => ?_)
-    have hf' : e.fine P := by simpa [Expr.fine] using hf
-    exact good_plus_ok h1 (ih1 hf').1 ((ih2 (by simpa [Expr.fine] using hf')).2.2 _ rfl)
+    have hf' : e.fineS P := by simpa [Expr.fineS] using hf
+    exact good_plus_ok h1 (ih1 hf').1 ((ih2 (by simpa [Expr.fineS] using hf')).2.2 _ rfl)
   | push_ok hn _ ih =>
     refine Motive.leaf (by intro _ h; cases h) (by intro _ h; cases h) (fun hf => ?_)
-    exact good_wrap_ok hW (fun ko st => compile_push_nonact hn hW.envAst _ ko false false st)
-      (ih (by simpa [Expr.fine] using hf)).1
+    exact good_wrap_ok hW (fun ko pd pmk st => compile_push_nonact hn hW.envAst _ ko pd pmk st)
+      (fun _ _ h => by simpa only [Lead] using h)
+      (ih (by simpa [Expr.fineS] using hf)).1
   | push_fail hn _ ih =>
     refine Motive.leaf (by intro _ h; cases h) (by intro _ h; cases h) (fun hf => ?_)
-    exact good_wrap_fail (fun ko st => compile_push_nonact hn hW.envAst _ ko false false st)
-      (ih (by simpa [Expr.fine] using hf)).1
+    exact good_wrap_fail (fun ko pd pmk st => compile_push_nonact hn hW.envAst _ ko pd pmk st)
+      (fun _ _ h => by simpa only [Lead] using h)
+      (ih (by simpa [Expr.fineS] using hf)).1
   | push_act =>
     exact Motive.leaf (by intro _ h; cases h) (by intro _ h; cases h)
-      (fun _ => good_wrap_act hW (by intro ko st; simp [compile, hW.envAst]))
+      (fun _ => good_wrap_act hW (by intro ko pd pmk st; simp [compile, hW.envAst]))
   | ipush_ok hn _ ih =>
     refine Motive.leaf (by intro _ h; cases h) (by intro _ h; cases h) (fun hf => ?_)
-    exact good_wrap_ok hW (fun ko st => compile_ipush_nonact hn _ ko false false st)
-      (ih (by simpa [Expr.fine] using hf)).1
+    exact good_wrap_ok hW (fun ko pd pmk st => compile_ipush_nonact hn _ ko pd pmk st)
+      (fun _ _ h => by simpa only [Lead] using h)
+      (ih (by simpa [Expr.fineS] using hf)).1
   | ipush_fail hn _ ih =>
     refine Motive.leaf (by intro _ h; cases h) (by intro _ h; cases h) (fun hf => ?_)
-    exact good_wrap_fail (fun ko st => compile_ipush_nonact hn _ ko false false st)
-      (ih (by simpa [Expr.fine] using hf)).1
+    exact good_wrap_fail (fun ko pd pmk st => compile_ipush_nonact hn _ ko pd pmk st)
+      (fun _ _ h => by simpa only [Lead] using h)
+      (ih (by simpa [Expr.fineS] using hf)).1
   | ipush_act =>
     exact Motive.leaf (by intro _ h; cases h) (by intro _ h; cases h)
-      (fun _ => good_wrap_act hW (by intro ko st; simp [compile, hW.envAst]))
+      (fun _ => good_wrap_act hW (by intro ko pd pmk st; simp [compile, hW.envAst]))
 
 end PegVerif
